@@ -26,7 +26,7 @@ fn addr_pairs(v6: bool) -> Vec<(Ip, Ip)> {
 }
 
 pub fn run(rep: &mut Report, thorough: bool) {
-    rep.rule = "all 512 values of the 9 TCP flag bits x 8 reserved-bit values x payload {none, 1 byte, HTTP request} x 6 edge sequence numbers x {v4,v6}; both 16-bit halves of the sequence number swept over all 65536 values; cookie function: determinism under changes of MAC / seq / flags / window / payload / retransmission, sensitivity to each of (src, dst, sport, dport, key) over 2^16 port values and address pairs, collision count compared with the 2^-32 expectation".into();
+    rep.rule = "all 512 values of the 9 TCP flag bits x 8 reserved-bit values x payload {none, 1 byte, HTTP request} x 6 edge sequence numbers x {v4,v6}; both 16-bit halves of the sequence number swept over all 65536 values; cookie function: determinism under changes of MAC / seq / flags / window / payload / retransmission, sensitivity to each of (src, dst, sport, dport, key) over 2^16 port values and address pairs, collision count compared with the 2^-32 expectation; ADDED LATER: BFS of SYNs after connection histories, depth-2 pair histories over an L2-L4 frame set (the SYN-ACK of a SYN equals the one a fresh process gives), all four list combinations".into();
     rep.assumptions = vec![
         "the cookie is learned from SYN-ACKs; agreement with the harness's own SipHash-2-4 is reported as information, not as a verdict".into(),
         "collision bound for N tuples: observed <= 4*N^2/2^33 + 8".into(),
@@ -51,6 +51,21 @@ pub fn run(rep: &mut Report, thorough: bool) {
             seg.reserved = d[1] as u8;
             f.tcp_seg(&seg)
         });
+        // SYNs behind IPv4 options (IHL 6..15): the policy does not depend on the IP header length
+        {
+            let dims = [10u64, 512, 2];
+            sweep_frames(rep, cfg, &format!("flags-ip-options-{}", tag), "IHL 6..15 (NOP options) x flags 0..511 x payload {none, 1 byte}", product(&dims), |i| {
+                let d = unrank(i, &dims);
+                let ihl = 6 + d[0] as u8;
+                let f = flow4(40000, 80);
+                let (c4, s4) = match (f.cip, f.sip) {
+                    (Ip::V4(a), Ip::V4(b)) => (a, b),
+                    _ => unreachable!(),
+                };
+                let l4 = TcpSeg::new(40000, 80, 0xfffffffe, 0, d[1] as u16, if d[2] == 0 { b"" } else { b"x" }).bytes(&f.cip, &f.sip);
+                eth(&MAC_SRV, &MAC_CLI, ET_IP4, &ipv4_raw(c4, s4, P_TCP, &l4, ihl, None, &vec![1u8; (ihl as usize - 5) * 4], 64, 0x4000, 7))
+            });
+        }
         if ci < 2 || thorough {
             sweep_frames(rep, cfg, &format!("seq-halves-{}", tag), "sequence number: low half and high half each over all 65536 values x {v4,v6} x flags {SYN, SYN|ECE|PSH}", 65536 * 2 * 2 * 2, |i| {
                 let d = unrank(i, &[2, 2, 2, 65536]);
